@@ -34,6 +34,7 @@ func c08Msg(c *Ctx, stream string, m *dns.Msg, plain bool) {
 	// single records
 	for _, s := range [][]dns.RR{m.Answer, m.Ns, m.Extra} {
 		for _, rr := range s {
+			lenRRCorr(c, stream, rr)
 			w, err := packRRBytes(rr)
 			if err != nil {
 				c.Pred(stream, "packrr-has-room", rr.String(), false, err.Error(), "nil", true)
